@@ -1243,6 +1243,13 @@ fn encode_variable_length(value: u32, writer: &mut BitWriter) -> Result<()> {
         writer.write_bits(value - 128, 15)?; // Store as offset from 128
     } else {
         // 11xxxxxxxxxxxxxxxxxxxxxxxxxxxxxxxxxxxxxx format (11 + 30 bits)
+        if value - 32768 >= (1u32 << 30) {
+            // write_bits would silently keep the low 30 bits only
+            return Err(ZiporaError::invalid_data(format!(
+                "Value {} does not fit the 30-bit variable-length form",
+                value
+            )));
+        }
         writer.write_bits(1, 1)?;  // First bit: 1
         writer.write_bits(1, 1)?;  // Second bit: 1
         writer.write_bits(value - 32768, 30)?; // Store as offset from 32768
